@@ -7,6 +7,9 @@
   Any arrivals  : c14_only_complete, c14_only_complete_finished (5) — invariant `CtxInv`
   Delivery      : c14_once, deliverStep_cases, c14_invalid_noop, c14_replay_noop,
                   c14_after_delivery, c14_exactly_once (6)
+  Repaired parsers (ParseUint, nothing after the last comma): bytesToUint16_eq_some_iff / _range /
+                  _signed_rejected / _too_big, parseItag_eq_some_iff / _range / _signed_rejected,
+                  parseFragment_trailing_rejected(_body), parseFragment_eq_some_iff, parseFragment_some
   Core Lean only.
 -/
 import Otr.Frag
@@ -140,11 +143,94 @@ theorem atoi_fmt05d (k : Nat) (h : k < 100000) : atoi (fmt05d k) = some (k : Int
 
 /-- number round trip: the receiver reads back what `%05d` wrote (3) -/
 theorem bytesToUint16_fmt05d (k : Nat) (h : k ≤ 65535) : bytesToUint16 (fmt05d k) = some k := by
+  have hd := fmt05d_all_digits k (by omega)
+  have hv := decVal_fmt05d k (by omega)
+  have hne : (fmt05d k).isEmpty = false := by
+    rw [fmt05d_explicit k (by omega)]; rfl
   unfold bytesToUint16
-  rw [atoi_fmt05d k (by omega)]
-  show some (((k : Int) % 65536).toNat) = some k
-  congr 1
+  rw [hne, hd, hv]
+  simp only [Bool.not_true, Bool.or_self, Bool.false_eq_true, ↓reduceIte, h]
+
+/-- repaired `bytesToUint16` (`strconv.ParseUint(s, 10, 16)`): exact characterisation -/
+theorem bytesToUint16_eq_some_iff (s : Bytes) (v : Nat) :
+    bytesToUint16 s = some v ↔ s ≠ [] ∧ s.all isDigit = true ∧ decVal s = v ∧ v ≤ 65535 := by
+  unfold bytesToUint16
+  cases s with
+  | nil => simp
+  | cons c r =>
+    simp only [List.isEmpty_cons, Bool.false_or, ne_eq, reduceCtorEq, not_false_eq_true, true_and]
+    cases hd : (c :: r).all isDigit
+    · simp
+    · simp only [Bool.not_true, Bool.false_eq_true, ↓reduceIte, true_and]
+      constructor
+      · intro h
+        split at h
+        · rename_i hv
+          injection h with h
+          exact ⟨h, h ▸ hv⟩
+        · cases h
+      · rintro ⟨rfl, hv⟩
+        simp only [hv, ↓reduceIte]
+
+/-- what `bytesToUint16` accepts is a non-empty string of ASCII digits and its value fits 16 bits:
+    no sign, no wrap-around -/
+theorem bytesToUint16_range (s : Bytes) (v : Nat) (h : bytesToUint16 s = some v) :
+    v ≤ 65535 ∧ s.all isDigit = true ∧ s ≠ [] := by
+  obtain ⟨h1, h2, _, h4⟩ := (bytesToUint16_eq_some_iff s v).mp h
+  exact ⟨h4, h2, h1⟩
+
+/-- a leading sign (`+` or `-`) is not accepted any more -/
+theorem bytesToUint16_signed_rejected (r : Bytes) :
+    bytesToUint16 (43 :: r) = none ∧ bytesToUint16 (45 :: r) = none := by
+  have h43 : isDigit 43 = false := by decide
+  have h45 : isDigit 45 = false := by decide
+  constructor <;>
+    simp only [bytesToUint16, List.isEmpty_cons, List.all_cons, h43, h45, Bool.false_and, Bool.not_false,
+      Bool.or_true, ↓reduceIte]
+
+/-- numbers above 65535 are rejected instead of being reduced modulo 2^16 -/
+theorem bytesToUint16_too_big (s : Bytes) (h : 65535 < decVal s) : bytesToUint16 s = none := by
+  cases hs : bytesToUint16 s with
+  | none => rfl
+  | some v =>
+    obtain ⟨_, _, h3, h4⟩ := (bytesToUint16_eq_some_iff s v).mp hs
+    omega
+
+/-- repaired `parseItag` (`strconv.ParseUint(s, 16, 32)`): the value fits 32 bits and is the plain
+    hexadecimal value of a non-empty string -/
+theorem parseItag_eq_some_iff (s : Bytes) (v : Nat) :
+    parseItag s = some v ↔ s ≠ [] ∧ hexVal' s 0 = some v ∧ v ≤ 4294967295 := by
+  unfold parseItag
+  cases s with
+  | nil => simp
+  | cons c r =>
+    simp only [List.isEmpty_cons, Bool.false_eq_true, ↓reduceIte, ne_eq, reduceCtorEq,
+      not_false_eq_true, true_and]
+    cases hv : hexVal' (c :: r) 0 with
+    | none => simp
+    | some w =>
+      simp only [Option.some.injEq]
+      constructor
+      · intro h
+        split at h
+        · rename_i hw
+          injection h with h
+          exact ⟨h, h ▸ hw⟩
+        · cases h
+      · rintro ⟨rfl, hw⟩
+        simp only [hw, ↓reduceIte]
+
+theorem parseItag_range (s : Bytes) (v : Nat) (h : parseItag s = some v) : v < 4294967296 := by
+  obtain ⟨_, _, h3⟩ := (parseItag_eq_some_iff s v).mp h
   omega
+
+/-- a leading sign (`+` or `-`) is not accepted any more -/
+theorem parseItag_signed_rejected (r : Bytes) :
+    parseItag (43 :: r) = none ∧ parseItag (45 :: r) = none := by
+  have h43 : hexDigitVal 43 = none := by decide
+  have h45 : hexDigitVal 45 = none := by decide
+  constructor <;>
+    simp only [parseItag, List.isEmpty_cons, Bool.false_eq_true, ↓reduceIte, hexVal', h43, h45]
 
 
 theorem hexDigits_length_le (j : Nat) : ∀ f n, n < 16 ^ (j + 1) → (hexDigits f n).length ≤ j + 1 := by
@@ -334,7 +420,73 @@ theorem parseFragment_body (i num : Nat) (c : Bytes) (hi : i ≤ 65535) (hn : nu
   unfold parseFragment
   rw [e, splitOn_append_sep _ _ _ (fmt05d_no_comma i (by omega)),
     splitOn_append_sep _ _ _ (fmt05d_no_comma num (by omega)), splitOn_append_sep _ _ _ hc]
-  simp only [splitOn, bytesToUint16_fmt05d i hi, bytesToUint16_fmt05d num hn]
+  simp only [splitOn, List.isEmpty_nil, Bool.not_true, Bool.false_eq_true, ↓reduceIte,
+    bytesToUint16_fmt05d i hi, bytesToUint16_fmt05d num hn]
+
+/-- repaired `parseFragment`: anything after the comma that ends the piece makes the fragment
+    unparsable (the old code dropped the fourth part silently) -/
+theorem parseFragment_trailing_rejected (body p0 p1 p2 p3 : Bytes)
+    (hs : splitOn 44 body = [p0, p1, p2, p3]) (h3 : p3 ≠ []) : parseFragment body = none := by
+  unfold parseFragment
+  rw [hs]
+  cases p3 with
+  | nil => exact absurd rfl h3
+  | cons c r => simp only [List.isEmpty_cons, Bool.not_false, ↓reduceIte]
+
+/-- the same on a concrete shape: `k,n,piece,` followed by a non-empty comma-free rest -/
+theorem parseFragment_trailing_rejected_body (p0 p1 c rest : Bytes) (h0 : (44 : UInt8) ∉ p0)
+    (h1 : (44 : UInt8) ∉ p1) (hc : (44 : UInt8) ∉ c) (hr : (44 : UInt8) ∉ rest) (hne : rest ≠ []) :
+    parseFragment (p0 ++ 44 :: (p1 ++ 44 :: (c ++ 44 :: rest))) = none := by
+  have e : splitOn 44 rest = [rest] := by
+    -- splitOn of a non-empty comma-free string is the string itself
+    induction rest with
+    | nil => exact absurd rfl hne
+    | cons x r ih =>
+      have hx : x ≠ 44 := fun e => hr (by simp [e])
+      have hr' : (44 : UInt8) ∉ r := fun e => hr (List.mem_cons_of_mem _ e)
+      cases r with
+      | nil => simp only [splitOn, hx, ↓reduceIte]
+      | cons y r' =>
+        have := ih hr' (by simp)
+        rw [splitOn]
+        simp only [hx, ↓reduceIte, this]
+  refine parseFragment_trailing_rejected _ p0 p1 c rest ?_ hne
+  rw [splitOn_append_sep _ _ _ h0, splitOn_append_sep _ _ _ h1, splitOn_append_sep _ _ _ hc, e]
+
+/-- exact shape of everything `parseFragment` accepts: four comma-separated parts, the last one
+    empty, the first two unsigned decimal numbers that fit 16 bits -/
+theorem parseFragment_eq_some_iff (body d : Bytes) (ix l : Nat) :
+    parseFragment body = some (d, ix, l) ↔
+      ∃ p0 p1, splitOn 44 body = [p0, p1, d, []] ∧ bytesToUint16 p0 = some ix ∧
+        bytesToUint16 p1 = some l := by
+  unfold parseFragment
+  constructor
+  · intro h
+    split at h
+    · rename_i p0 p1 p2 p3 hs
+      split at h
+      · cases h
+      · rename_i h3
+        split at h
+        · rename_i ix' l' e0 e1
+          injection h with h
+          injection h with ha hb
+          injection hb with hb hc
+          subst ha hb hc
+          cases p3 with
+          | nil => exact ⟨p0, p1, hs, e0, e1⟩
+          | cons c r => simp at h3
+        · cases h
+    · cases h
+  · rintro ⟨p0, p1, hs, e0, e1⟩
+    rw [hs]
+    simp only [List.isEmpty_nil, Bool.not_true, Bool.false_eq_true, ↓reduceIte, e0, e1]
+
+/-- index and total handed to `fragAccept` always fit 16 bits -/
+theorem parseFragment_some (body d : Bytes) (ix l : Nat) (h : parseFragment body = some (d, ix, l)) :
+    ix ≤ 65535 ∧ l ≤ 65535 := by
+  obtain ⟨p0, p1, _, e0, e1⟩ := (parseFragment_eq_some_iff body d ix l).mp h
+  exact ⟨(bytesToUint16_range p0 ix e0).1, (bytesToUint16_range p1 l e1).1⟩
 
 theorem reassembleStep_piece (v : Version) (its itr : Nat) (data : Bytes) (r num i : Nat) (ctx : FragCtx)
     (h1 : its < 4294967296) (h2 : itr < 4294967296) (hi : i + 1 ≤ 65535) (hn : num ≤ 65535)
